@@ -571,7 +571,7 @@ Lemma append_io_chunks cr m x y :
   in_chunks (ms_chunks (append_io cr m x)) y <-> in_chunks (ms_chunks m) y \/ y = x.
 Proof.
   unfold append_io.
-  assert (Cut : in_chunks (mkC (st x) (st x) [x] :: ms_chunks m) y <-> in_chunks (ms_chunks m) y \/ y = x).
+  assert (Cut : in_chunks (mkC (st x) (st x) [x] O :: ms_chunks m) y <-> in_chunks (ms_chunks m) y \/ y = x).
   { unfold in_chunks. split.
     - intros [c0 [[<-|Hc] Hy]]; [simpl in Hy; destruct Hy as [->|[]]; auto | left; eauto].
     - intros [[c0 [Hc Hy]]| ->]; [exists c0; split; [right|]; auto | eexists; split; [left; reflexivity|simpl; auto]]. }
@@ -594,7 +594,7 @@ Lemma append_io_ok cr m x :
   chunks_ok (ms_chunks (append_io cr m x)).
 Proof.
   intros Hok Hx Hgt. unfold append_io.
-  assert (Cut : chunks_ok (mkC (st x) (st x) [x] :: ms_chunks m)).
+  assert (Cut : chunks_ok (mkC (st x) (st x) [x] O :: ms_chunks m)).
   { cbn [chunks_ok c_min c_max c_samples]. repeat (split; [lia|]).
     split; [intros y [<-|[]]; lia|]. split; auto. }
   destruct (ms_chunks m) as [|c0 r] eqn:E; [exact Cut|].
